@@ -491,6 +491,15 @@ def run_real(g, variant, elim, plates, **kw):
             rs = partial_sum_product(sum_op, prod_op, ts, E, Pl, pedantic=True)
         elif variant == "psp-scale":
             rs = partial_sum_product(sum_op, prod_op, ts, E, Pl, plate_to_scale=dict(kw["scales"]))
+        elif variant == "sp-scale":
+            rs = [sum_product(sum_op, prod_op, ts, E, Pl, plate_to_scale=dict(kw["scales"]))]
+        elif variant == "sp-scale-pedantic":
+            rs = [sum_product(sum_op, prod_op, ts, E, Pl, pedantic=True, plate_to_scale=dict(kw["scales"]))]
+        elif variant == "split-scale":
+            sc = dict(kw["scales"])
+            r1 = partial_sum_product(sum_op, prod_op, ts, frozenset(kw["e1"]), Pl, plate_to_scale=sc)
+            rs = partial_sum_product(sum_op, prod_op, r1, frozenset(kw["e2"]), Pl, plate_to_scale=sc)
+            return "value", (list(r1), list(rs))
         elif variant == "sp":
             rs = [sum_product(sum_op, prod_op, ts, E, Pl)]
         elif variant == "mod":
@@ -664,9 +673,9 @@ def requests_for(c):
     sc = sx([[n, s] for n, s in c.kw.get("scales", [])])
     reqs = [f"C09 unroll {wire} {fs} {sx(c.elim)} {sx(c.plates)} {sc} {free}"]
     v = c.variant
-    if v in ("psp", "sp", "psp-scale", "psp-pedantic"):
+    if v in ("psp", "sp", "psp-scale", "sp-scale", "sp-scale-pedantic", "psp-pedantic"):
         reqs.append(f"C09 psp {wire} {fs} {sx(c.elim)} {sx(c.plates)} {sc} {free} false "
-                    f"{'true' if v == 'psp-pedantic' else 'false'}")
+                    f"{'true' if v in ('psp-pedantic', 'sp-scale-pedantic') else 'false'}")
     elif v in ("mod", "dyn"):
         reqs.append(f"C09 psp {wire} {fs} {sx(c.elim)} {sx(c.plates)} () {free} true false")
     elif v == "split":
@@ -705,7 +714,7 @@ def evaluate(ctx, c, answers, use_driver=True):
     # what the one-shot oracle is *for this variant*
     split_ok = True
     in_defect = False
-    if v == "split":
+    if v in ("split", "split-scale"):
         split_ok = split_valid(g.factors, c.kw["e1"], c.kw["e2"], c.plates)
         ctx.count("split:valid" if split_ok else "split:not-inner-first")
     if v in ("mod", "dyn") and defect_region(g.factors, c.elim, c.plates):
@@ -749,7 +758,7 @@ def evaluate(ctx, c, answers, use_driver=True):
         return
 
     r1 = None
-    if v == "split":
+    if v in ("split", "split-scale"):
         r1, rs = rs
     try:
         got = product_table(g, rs, free)
@@ -763,7 +772,7 @@ def evaluate(ctx, c, answers, use_driver=True):
         ctx.case()
         return
 
-    if v == "split" and not split_ok:
+    if v in ("split", "split-scale") and not split_ok:
         # not an inner-first split: the composite is not required to equal the one-shot value;
         # each call on its own is covered by the psp stream
         ctx.count("split:unchecked-composite")
@@ -782,7 +791,7 @@ def evaluate(ctx, c, answers, use_driver=True):
             mine = sorted(canon_factor(i, d) for i, d in model[2])
             theirs = sorted(canon_factor([(n, s) for n, s in w[0]], w[1])
                             for w in (wire_of_result(r, kind) for r in rs))
-            if v == "sp":
+            if v in ("sp", "sp-scale", "sp-scale-pedantic", "split-scale"):
                 ctx.count("fidelity:results-n/a")
             else:
                 ctx.count("fidelity:results-equal" if mine == theirs else "fidelity:results-differ")
@@ -944,6 +953,43 @@ def derived_case(c, r1):
     return Case(Graph(factors, sizes, lin, g.sr), c.plates, [n for n in c.kw["e2"]], "psp")
 
 
+def gen_scales(rng, names, plates, elim):
+    """A plate_to_scale dict over the eliminated plates: all / some / none of them, integer scales 1-3
+    (occasionally also a plate that is not eliminated or not present, which must be ignored)."""
+    sp = [p for p in plates if p in elim and p in names]
+    r = rng.random()
+    if r < 0.45:
+        chosen = list(sp)
+    elif r < 0.9:
+        chosen = [p for p in sp if rng.random() < 0.5]
+    else:
+        chosen = []
+    scales = [(p, rng.choice([1, 2, 2, 2, 3])) for p in chosen]
+    if rng.random() < 0.1:
+        other = [p for p in plates if p not in sp]
+        if other:
+            scales.append((rng.choice(other), 2))
+    return scales
+
+
+def scaled_cases(rng, g, plates, elim, n=1, **kw):
+    """plate scales on every entry point that accepts them: partial_sum_product, sum_product (also with
+    pedantic=True), and a two-call split with the same dict passed to both calls"""
+    names = g.names()
+    if not any(p in elim and p in names for p in plates):
+        return []
+    out = []
+    kinds = ["psp-scale", "sp-scale", "sp-scale", "split-scale", "sp-scale-pedantic"]
+    for v in rng.sample(kinds, min(n, len(kinds))):
+        scales = gen_scales(rng, names, plates, elim)
+        if v == "split-scale":
+            e1, e2 = gen_split(rng, g.factors, elim, plates)
+            out.append(Case(g, plates, elim, v, scales=scales, e1=e1, e2=e2, **kw))
+        else:
+            out.append(Case(g, plates, elim, v, scales=scales, **kw))
+    return out
+
+
 def variants_for(rng, g, plates, elim, full):
     """Which entry points to exercise on one (graph, eliminate): always psp; the others all (full) or one."""
     names = g.names()
@@ -961,10 +1007,7 @@ def variants_for(rng, g, plates, elim, full):
         rng.shuffle(output)
         # einsum eliminates every plate that is not an output
         extra.append(Case(g, plates, [n for n in names if n not in output], "einsum", output=output))
-    sp = [p for p in plates if p in elim and p in names]
-    if sp:
-        scales = [(p, rng.choice([2, 2, 3])) for p in sp if rng.random() < 0.7] or [(sp[0], 2)]
-        extra.append(Case(g, plates, elim, "psp-scale", scales=scales))
+    extra += scaled_cases(rng, g, plates, elim, n=3 if full else 1)
     if full:
         return out + extra
     return out + [rng.choice(extra)]
@@ -997,9 +1040,8 @@ def clean_cases(ctx, volume=1):
         if thorough:
             elims = [[n for n, b in zip(names, bits) if b] for bits in itertools.product([0, 1], repeat=len(names))]
         else:
-            elims = [list(names)]
-            if names:
-                elims.append(gen_elim(rng, names) if rng.random() < 0.5 else [n for n in names if rng.random() < 0.5])
+            # (full elimination of these shapes is part of the 3-plate enumeration below)
+            elims = [gen_elim(rng, names) if rng.random() < 0.5 else [n for n in names if rng.random() < 0.5]]
         for elim in elims:
             sizes = {n: 2 for n in names} if rng.random() < 0.6 else {n: rng.choice([1, 2]) for n in names}
             g = make_graph(rng, [tuple(f) for f in shape], sizes, rng.choice(SRS))
@@ -1015,7 +1057,7 @@ def clean_cases(ctx, volume=1):
         shapes3 += [sh for k, sh in enumerate(four) if k % 3 == ctx.seed % 3]
         ctx.count("plate-structures-3:four-factor-third", 1)
     else:
-        for _ in range(450 * volume):      # 4 factors: sampled in the quick tier
+        for _ in range(350 * volume):      # 4 factors: sampled in the quick tier
             shapes3.append([tuple(n for b, n in enumerate(NAMES6) if m >> b & 1)
                             for m in (rng.randrange(64) for _ in range(4))])
     for si, shape in enumerate(shapes3):
@@ -1034,16 +1076,24 @@ def clean_cases(ctx, volume=1):
             if new_ordinal_shape(g.factors, elim, plates3):
                 ctx.count("plate-structures-3:creates-new-ordinal")
             yield variants_for(rng, g, plates3, elim, full=False)
+            # plate scales (all / some / none of the eliminated plates) through sum_product / psp / a split
+            if rng.random() < (0.3 if not thorough else 0.6):
+                cs = scaled_cases(rng, g, plates3, elim, n=1)
+                if cs:
+                    ctx.count("stratum:plate-scales")
+                    yield cs
             # other factor kinds (Constant over some of the plates, Number, lazy) on the same shape
             if rng.random() < (0.22 if not thorough else 0.5):
                 srd = rng.choice(["add-mul", "add-mul", "logaddexp-add", "logaddexp-add", "max-add", "min-mul"])
                 gd = make_graph(rng, [tuple(f) for f in shape], sizes, srd)
                 cs = decorated_cases(rng, gd, plates3, elim)
+                if cs and rng.random() < 0.4:
+                    cs += scaled_cases(rng, cs[0].g, plates3, elim, n=1, decor=True)
                 if cs:
                     ctx.count("stratum:factor-kinds")
                     yield cs
     # --- random larger ---------------------------------------------------------------------
-    n = (400 if not thorough else 3500) * volume
+    n = (300 if not thorough else 3500) * volume
     made = 0
     while made < n:
         factors, sizes, plates = gen_random_graph(rng, ctx.tier)
@@ -1056,7 +1106,7 @@ def clean_cases(ctx, volume=1):
 
 
 def correspond(ctx):
-    ctx.rule = ("(0) EVERY plate structure: all multisets of <= 3 factors (thorough: plus a seed-rotated third of the 33,963 four-factor shapes; quick samples 450 with 4) over "
+    ctx.rule = ("(0) EVERY plate structure: all multisets of <= 3 factors (thorough: plus a seed-rotated third of the 33,963 four-factor shapes; quick samples 350 with 4) over "
                 "3 variables and 3 plates up to renaming (3038 / 37001 shapes), full elimination (+ a random eliminate set), "
                 "sizes fitted under the unrolling cap, six semirings in rotation; on 22% (thorough 50%) of these shapes also a copy "
                 "with other FACTOR KINDS of identical meaning: funsor.Constant over 1-3 of a factor's plates, Number, lazy "
@@ -1105,6 +1155,10 @@ def correspond(ctx):
     flush()
     ctx.assumptions.append("float64 arithmetic on the generated small integers / dyadic rationals is exact; the "
                            "logaddexp-add semiring is compared in linear space with rtol 1e-9")
+    ctx.assumptions.append("plate scales: the executable Lean model implements them (applyScale / unroll with s replicas of "
+                           "the plate) and `scale_as_power` / `scale_is_replication` state that a scale is s replicas; the "
+                           "scaled cases (sum_product, partial_sum_product, splits, pedantic; dicts over all/some/none of the "
+                           "eliminated plates; every factor kind) are tied to the code by correspondence, not by a loop theorem")
     ctx.assumptions.append("duplicate factors: the Lean model and theorems take a factor LIST (Run: a Multiset), so a factor "
                            "listed twice is two factors there by construction; the harness lists the same funsor object "
                            "2-3 times to check that funsor agrees (fix 5586110: _partition keys term nodes by position)")
